@@ -406,7 +406,11 @@ func (l *Log) Maintenance(interval time.Duration, snapf string, stopc <-chan str
 			return size, err
 		}
 		if size, err = l.Snapshot(f); err != nil {
-			f.Close()
+			// Closing the replaceFile would move the partially written
+			// temporary file over the last good snapshot: only close
+			// the underlying file and discard it.
+			f.File.Close()
+			os.Remove(f.Name())
 			return size, err
 		}
 		return size, f.Close()
